@@ -5,6 +5,7 @@ mod util;
 mod sase;
 mod window;
 mod vplrun;
+mod expr;
 
 fn main() {
     let args: Vec<String> = std::env::args().collect();
@@ -20,6 +21,7 @@ fn main() {
         "win-replay" => window::replay(rest),
         "win-record" => window::record(rest),
         "vpl-run" => vplrun::main(rest),
+        "expr-replay" => expr::replay(rest),
         other => {
             eprintln!("unknown engine {other}");
             std::process::exit(2);
